@@ -31,6 +31,8 @@ def run(prog, chk):
     colours(prog, chk)
     plain_guards(prog, chk)
     evaluated_classes_are_split(prog, chk)
+    builders_unconditional(prog, chk)
+    root_outside_collection(prog, chk)
     unfiltered_output(prog, chk)
     from props import strops
     strops.check_for(prog, chk, "C20")  # A14.str-ops: how this property's strings are cut up is a reviewed, frozen inventory
@@ -312,6 +314,47 @@ def colours(prog, chk):
     chk.floor("A16.colours", len(cl), 100, "colour name")
     chk.ob(len(set(cl)) == len(cl), "A16.colours", "COLOUR_LIST:unique", "src/colours.rs", f"COLOUR_LIST has {len(cl)} distinct names (each colour class yields one rule)", f"duplicate colour names: {sorted({c for c in cl if cl.count(c) > 1})}")
     chk.ob(set(dk) <= set(cl) and len(set(dk)) == len(dk), "A16.colours", "DARK_COLOURS:subset", "src/colours.rs", f"DARK_COLOURS ({len(dk)}) is a duplicate-free subset of COLOUR_LIST", f"DARK_COLOURS not in COLOUR_LIST: {sorted(set(dk) - set(cl))}")
+
+
+def builders_unconditional(prog, chk):
+    """the per-family style builders (colours, stroke widths, arrows, dashes, patterns ...) decide for themselves, class
+    by class, what to emit: Theme::build calls each of them unconditionally.  The one reviewed exception is the text
+    family, whose rules all select `text` elements."""
+    from sa import discharge as D
+
+    GATED_OK = {"append_text_styles": "every rule of the text family selects `text` / `tspan` elements, so it is skipped when the output has no text element"}
+    n = 0
+    for b in prog.bodies.values():
+        if b.unit != "svgdx-lib" or not (b.path.startswith("svgdx::themes::") and b.path.split("::")[-1] == "build"):
+            continue
+        chk.touch(b)
+        for (bb, t, c) in b.call_sites(lambda c: c.path.startswith("svgdx::themes::append_")):
+            n += 1
+            name = c.path.split("::")[-1]
+            # unconditional = on every path from entry to a return
+            rets = [x for x in b.reachable if b.term(x)["k"] == "ret"]
+            conds = [x for x in rets if x in b.reach([0], avoid={bb})] if bb != 0 else []
+            if name in GATED_OK:
+                chk.ok("A16.builders-unconditional", f"build:{name}", b.where(bb, t.get("line")), "reviewed: " + GATED_OK[name], by="table")
+                continue
+            chk.ob(not conds, "A16.builders-unconditional", f"build:{name}", b.where(bb, t.get("line")), f"{name}() is always called; it emits per class", f"{name}() is not called on every path through Theme::build: a reserved class of that family used on an element the condition does not anticipate (e.g. d-arrow on a <path>) gets no rule and no definition")
+    chk.floor("A16.builders-unconditional", n, 6, "append_*_styles call in Theme::build")
+
+
+def root_outside_collection(prog, chk):
+    """the classes that get rules are collected from the events *after* the root start tag; the root tag itself is
+    written by write_root_svg from attributes only, so it must not carry classes (a reserved class there would be in
+    the output without its rule)"""
+    b = prog.maybe_body("svgdx::transform::Transformer::write_root_svg")
+    if b is None:
+        chk.anchor_missing("A16.root-no-classes", "Transformer::write_root_svg not found")
+        return
+    chk.touch(b)
+    news = b.call_sites(R.path_is("svgdx::element::SvgElement::new"))
+    chk.floor("A16.root-no-classes", len(news), 1, "SvgElement::new in write_root_svg")
+    adders = b.call_sites(lambda c: c.path.startswith("svgdx::element::SvgElement::") and c.path.split("::")[-1] in ("add_class", "add_classes", "with_attrs_from") or c.path.startswith("svgdx::types::ClassList::") and c.path.split("::")[-1] in ("insert", "extend", "replace"))
+    writes = [x for x, i, st in b.all_stmts() if st.get("lhs") and ".classes" in [str(z) for z in P(st["lhs"])[1]]]
+    chk.ob(not adders and not writes, "A16.root-no-classes", "write_root_svg", b.where(), "the root start tag is written without classes", f"write_root_svg gives the root element classes ({', '.join(b.where(bb, t.get('line')) for bb, t, c in adders) or 'direct write'}): the auto-style collection only sees the events after the root, so a reserved d-... class on the root <svg> is emitted without its rule / definition")
 
 
 def plain_guards(prog, chk):
